@@ -44,6 +44,19 @@ def build_initial(init: dict) -> bytes:
         b = io.BytesIO()
         pptx.Presentation().save(b)
         return b.getvalue()
+    if init["deck"] == "genmedia":
+        prs = pptx.Presentation()
+        s = prs.slides.add_slide(prs.slide_layouts[6])
+        for i, (tok, fmt) in enumerate(((11, "PNG"), (12, "JPEG"), (13, "PNG"))):
+            s.shapes.add_picture(io.BytesIO(image_bytes(tok, fmt, size=(5, 4))), 100000 * (i + 1), 100000)
+        b = io.BytesIO()
+        prs.save(b)
+        members = D.read_zip(io.BytesIO(b.getvalue()))
+        # image1.png, image2.jpg, image3.png  ->  image1.png, image1.jpg, image2.png
+        members = F.rename_parts(members, {"/ppt/media/image2.jpg": "/ppt/media/image1.jpg", "/ppt/media/image3.png": "/ppt/media/image2.png"})
+        out = io.BytesIO()
+        D.write_zip(members, out)
+        return out.getvalue()
     if init["deck"] != "gen":
         with open(init["deck"], "rb") as f:
             return f.read()
